@@ -745,8 +745,12 @@ def check_v2_string_to_sign(rep, tier="quick"):
         jobs = [("HeaderAuth", False, 2, 0, dom), ("HeaderAuth", False, 1, 1), ("HeaderAuth", False, 0, 3), ("HeaderAuth", True, 1, 1, dom),
                 ("PresignedUrl", False, 1, 1, dom), ("PresignedUrl", True, 2, 0, dom), ("PresignedUrl", True, 0, 2)]
     else:
-        jobs = [(mode, vh, nq, nh) for mode in ("HeaderAuth", "PresignedUrl") for vh in (False, True)
-                for nq, nh in [(2, 0), (2, 1), (1, 2), (0, 3), (0, 4)]]
+        from vlib import seed
+        k = seed() % len(V2_SUBRESOURCES)
+        dom = tuple(sorted({V2_SUBRESOURCES[(k + 5 * i) % len(V2_SUBRESOURCES)] for i in range(6)} | {"torrent"}))
+        jobs = [(mode, vh, nq, nh) for mode in ("HeaderAuth", "PresignedUrl") for vh in (False, True) for nq, nh in [(2, 0), (1, 1), (0, 3)]]
+        jobs += [("HeaderAuth", False, 2, 1, dom), ("PresignedUrl", True, 2, 1, dom), ("HeaderAuth", False, 1, 2), ("PresignedUrl", False, 1, 2),
+                 ("HeaderAuth", True, 0, 4)]
     with mp.get_context("fork").Pool(min(12, len(jobs))) as pool:
         outs = pool.map(_v2_job, jobs, chunksize=1)
     problems = {}
@@ -760,7 +764,6 @@ def check_v2_string_to_sign(rep, tier="quick"):
             problems.setdefault(k, v)
     rep.states += n_paths
     rep.encoded("crates/s3s/src/sig_v2/methods.rs", "create_string_to_sign", "%d-%d" % outs[0]["line"])
-    if tier == "quick":
-        rep.bound("V2 string to sign, quick tier: in the jobs with two query pairs the names range over the sub-resources %s (chosen by VERIF_SEED) "
-                  "and every name outside the list; the thorough tier lets them range over all 22" % (list(dom),))
+    rep.bound("V2 string to sign, jobs: %s; where a job names a domain, its query names range over those sub-resources (chosen by VERIF_SEED) and every "
+              "name outside the list, otherwise over all 22" % ([list(j) for j in jobs],))
     return problems, n_paths
